@@ -373,6 +373,13 @@ impl<const H: usize> Writer<H> {
             let original_size = data.len() as u32;
             let compressed = zstd::bulk::compress(data, ZSTD_COMPRESSION_LEVEL)?;
 
+            if 4 + compressed.len() >= data.len() {
+                // Incompressible: storing it compressed would make the record larger than
+                // the data itself (and than any size estimate based on it)
+                let total_payload_len = H + data.len();
+                return Ok((Cow::Borrowed(data), total_payload_len as u32));
+            }
+
             let mut final_data = Vec::with_capacity(4 + compressed.len());
             final_data.extend_from_slice(&original_size.to_le_bytes());
             final_data.extend_from_slice(&compressed);
